@@ -397,17 +397,49 @@ fn exec_stack<W: BitArray + Default>(t: &BitsTrace, ctx: &mut Ctx, skip_inspect:
     // drain: everything that is left must come back in reverse order
     ctx.op = t.ops.len();
     if ctx.on("C16") {
-        let mut k = 0;
-        while let Some(want) = r.pop() {
-            let got = on_st!(&mut c, x => x.read_bit().map_err(be));
-            if got != Ok(Some(want)) {
-                viol!(ctx, "C16", "stack-drain-mismatch", "bit {} from the top: got {:?} want {}", k, got, want);
+        // three ways of draining, chosen by the trace: read_bit, the Iterator impl with its
+        // ExactSizeIterator length, or the consuming into_iterator / into_decoder
+        match (t.ops.len() % 3, c) {
+            (1, St::V(x)) => {
+                ctx.stats.hit("drain-into-iterator");
+                let got: Vec<bool> = x.into_iterator().map(|b| b.unwrap_infallible()).collect();
+                let want: Vec<bool> = r.iter().rev().cloned().collect();
+                if got != want {
+                    viol!(ctx, "C16", "stack-drain-mismatch", "into_iterator() yields {} bits, {} were on the stack (first difference at {:?})", got.len(), want.len(), got.iter().zip(want.iter()).position(|(a, b)| a != b));
+                }
             }
-            k += 1;
-        }
-        let got = on_st!(&mut c, x => x.read_bit().map_err(be));
-        if got != Ok(None) {
-            viol!(ctx, "C16", "stack-not-empty-after-drain", "read_bit()={:?} after all bits were popped", got);
+            (2, St::V(mut x)) => {
+                ctx.stats.hit("drain-iterator-len");
+                let mut k = 0;
+                loop {
+                    let n = ExactSizeIterator::len(&x);
+                    if n != r.len() {
+                        viol!(ctx, "C16", "stack-len-mismatch", "ExactSizeIterator::len()={} with {} bits left", n, r.len());
+                    }
+                    let got = x.next().map(|b| b.unwrap_infallible());
+                    let want = r.pop();
+                    if got != want {
+                        viol!(ctx, "C16", "stack-drain-mismatch", "bit {} from the top: got {:?} want {:?}", k, got, want);
+                    }
+                    if want.is_none() { break; }
+                    k += 1;
+                }
+            }
+            (_, mut c) => {
+                ctx.stats.hit("drain-read-bit");
+                let mut k = 0;
+                while let Some(want) = r.pop() {
+                    let got = on_st!(&mut c, x => x.read_bit().map_err(be));
+                    if got != Ok(Some(want)) {
+                        viol!(ctx, "C16", "stack-drain-mismatch", "bit {} from the top: got {:?} want {}", k, got, want);
+                    }
+                    k += 1;
+                }
+                let got = on_st!(&mut c, x => x.read_bit().map_err(be));
+                if got != Ok(None) {
+                    viol!(ctx, "C16", "stack-not-empty-after-drain", "read_bit()={:?} after all bits were popped", got);
+                }
+            }
         }
     }
     Ok(out)
@@ -529,7 +561,22 @@ fn exec_queue<W: BitArray + Default>(t: &BitsTrace, ctx: &mut Ctx, skip_inspect:
     ctx.op = t.ops.len();
     // consumer
     let words: Vec<W> = match c {
-        Qe::V(x) => x.into_compressed().unwrap_infallible(),
+        Qe::V(x) => {
+            if t.ops.len() % 2 == 1 && ctx.on("C16") {
+                // the consuming iterator must yield the written bits, then only padding
+                ctx.stats.hit("drain-overshooting-iter");
+                let fresh = {
+                    let mut f = QueueEncoder::<W, Vec<W>>::from_compressed(prefix.clone());
+                    for b in r.iter().skip(prefix.len() * wbits) { f.write_bit(*b).unwrap_infallible(); }
+                    f
+                };
+                let got: Vec<bool> = fresh.into_overshooting_iter().unwrap_infallible().map(|b| b.unwrap_infallible()).collect();
+                if got.len() < r.len() || got[..r.len()] != r[..] || got[r.len()..].iter().any(|b| *b) || got.len() - r.len() >= wbits {
+                    viol!(ctx, "C16", "queue-overshooting-iter-mismatch", "{} bits written, iterator yields {} bits", r.len(), got.len());
+                }
+            }
+            x.into_compressed().unwrap_infallible()
+        }
         Qe::Sm(x) => x.into_compressed().unwrap_infallible().to_vec(),
     };
     out.extend(words.iter().map(|&w| w_to(w)));
